@@ -286,6 +286,9 @@ func (e *Ev) ident(n *ast.Ident) Term {
 		}
 	} else {
 		obj = e.lookupObj(name)
+		if obj == nil {
+			obj = e.renamedLocal(name)
+		}
 	}
 	if obj == nil {
 		return e.errorf(n, "unresolved identifier %s", name)
